@@ -61,6 +61,58 @@ def cross_check(xdir, limit, seed):
     return res
 
 
+def mixed_history(rep, results, seed, limit):
+    """History independence on solver-generated witnesses (a facet of C16, not claimed): a seeded shuffle of witnesses of DIFFERENT
+    skeletons is evaluated in one process, one after the other (dev build, then release build in another order); every outcome
+    must equal the outcome the same program had when its skeleton was explored.  A confirmed difference - the program alone in
+    a fresh process agrees with the recorded outcome, the program inside the batch does not, twice - is a violation."""
+    import random
+    from .nlsym import driver
+    pool = []
+    for r in results:
+        for src, out in r.get("witness_sample", []) or []:
+            pool.append((r["name"], src, out))
+    rng = random.Random(seed * 7919 + 13)
+    rng.shuffle(pool)
+    pool = pool[:limit]
+    res = {"programs_in_mixed_batches": len(pool), "differences": 0, "confirmed": 0}
+    if len(pool) < 2:
+        return res
+    nat = driver.Native()
+    try:
+        nat.eval_one("1", release=True)
+        orders = [("dev", pool), ("release", list(reversed(pool[len(pool) // 2:])) + pool[:len(pool) // 2])]
+        for prof, order in orders:
+            for k in range(0, len(order), 400):
+                chunk = order[k:k + 400]
+                try:
+                    outs = nat._batch(nat.bin if prof == "dev" else nat.bin_release, "eval", [c[1] for c in chunk], timeout=120)
+                except Exception:
+                    continue  # a crashing program is attributed by the per-skeleton validation, not here
+                for idx, ((name, src, rec), j) in enumerate(zip(chunk, outs)):
+                    if j.get("result") == rec["result"] and j.get("output", "") == rec["output"]:
+                        continue
+                    res["differences"] += 1
+                    alone = nat.eval_one(src, release=(prof == "release"))
+                    if alone.get("result") != rec["result"] or alone.get("output", "") != rec["output"]:
+                        continue  # not a matter of history (profile difference or nondeterminism is reported by the per-path comparison)
+                    try:
+                        again = nat._batch(nat.bin if prof == "dev" else nat.bin_release, "eval", [c[1] for c in chunk[:idx + 1]], timeout=120)[-1]
+                    except Exception:
+                        continue
+                    if again.get("result") == j.get("result") and again.get("output", "") == j.get("output", ""):
+                        res["confirmed"] += 1
+                        body = "# evaluations in ONE process, in this order (%s build); the LAST one differs from its evaluation in a fresh process\n" % prof
+                        body += "### HISTORY\n" + "\n\x01\n".join(c[1] for c in chunk[:idx + 1]) + "\n### ALONE\n%r\n### AFTER THE HISTORY\n%r\n" % (rec, {"result": j.get("result"), "output": j.get("output", "")})
+                        rep.violation("history:" + name, "%s: the outcome depends on what was evaluated before in the same process (%s build): alone %s, after %d other evaluations %s" % (
+                            name, prof, str(rec)[:120], idx, str({"result": j.get("result"), "output": j.get("output", "")})[:120]), body)
+                        if res["confirmed"] >= 5:
+                            return res
+    finally:
+        nat.close()
+    return res
+
+
 def run_s(rep, items, tier, kinds=None, wall_budget_s=None):
     """Run skeletons through nlsym; confirmed candidates become violations (key = skeleton name + kind)."""
     import shutil
@@ -77,6 +129,7 @@ def run_s(rep, items, tier, kinds=None, wall_budget_s=None):
     finally:
         shutil.rmtree(xdir, ignore_errors=True)
         os.environ.pop("NLV_XCHECK_DIR", None)
+    mh = mixed_history(rep, results, rep.seed, 1200 if tier == "quick" else 6000) if (kinds is None or "witness" in kinds) else None
     if xc["disagree"]:
         rep.unreproduced("second-solver cross-check disagrees with z3 on %d sampled queries: %r" % (xc["disagree"], xc["disagreements"][:2]))
     replayed = 0
@@ -131,6 +184,7 @@ def run_s(rep, items, tier, kinds=None, wall_budget_s=None):
         "witnesses_compared_dev_vs_release_and_reversed_history": agg.get("profile_history_pairs"),
         "solver_queries": agg.get("queries"),
         "second_solver_cross_check": xc,
+        "mixed_history_batches": mh,
         "solver_s": round(agg.get("solver_s", 0.0), 1),
         "skeletons_truncated_by_budget": agg.get("truncated"),
         "skeletons_rejected_by_parser": agg.get("parse_errors", 0),
